@@ -231,9 +231,22 @@ Inductive co_result :=
 Definition ws_entropy_postfork (n_uncles : Z) : Z :=
   (if 0 <? n_uncles then log_big n_uncles else 0) / alpha_inverse.
 
+(* Width of the integer header fields.  Number(ctx), PrimeTerminusNumber, Difficulty, ParentEntropy, ParentDeltaEntropy,
+   ParentUncledDeltaEntropy, UncledEntropy and BaseFee are *big.Int decoded from the wire with SetBytes WITHOUT a width
+   limit (core/types/block.go ProtoDecode, wo.go ProtoDecode): every one of them is an unbounded Z here and every rule
+   of [valid_child] compares them as unbounded integers (big.Int.Cmp / Sub in the Go code).
+   The Go accessors that TRUNCATE are written explicitly:
+     header.NumberU64(ctx) = Number(ctx).Uint64() = the low 64 bits          -> [num64]
+       used by CalcOrder (the "number == 0" genesis shortcut), CalcGasLimit, CalcStateLimit,
+       CalculateQiReward/OneOverKqi (base fee), the lock-byte rule (not modelled), WorkShareDistance;
+     PrimeTerminusNumber().Uint64() (fork-height switches; not modelled: the harness stays below the forks);
+     common.BytesToHash(x.Bytes()) keeps the last 32 bytes                   -> [crop_hash].
+   The number rule itself ("number is parent+1", [rule_number]) is NOT truncated: verifyHeader subtracts big.Ints. *)
+Definition num64 (h : header) : Z := u64 (h_num h).
+
 (* CalcOrder without the memo *)
 Definition calc_order (h : header) : co_result :=
-  if h_num h =? 0 then CoOk 0 ctx_prime else
+  if num64 h =? 0 then CoOk 0 ctx_prime else
   (* hc.verifySeal (PowMode normal): difficulty sign, then powHash <= target *)
   if h_diff h <=? 0 then CoErr else
   let target := big2e256 / h_diff h in
@@ -356,10 +369,10 @@ Definition expected_parent_uncled_delta_of (co : co_result) (p : header) : Z :=
   | None => 0
   end.
 Definition expected_parent_uncled_delta (p : header) : Z := expected_parent_uncled_delta_of (calc_order p) p.
-Definition expected_gas_limit (e : env) (p : header) : Z := calc_gas_limit (h_num p) (h_gas_limit p) (e_gas_ceil e).
-Definition expected_state_limit (p : header) : Z := calc_state_limit (h_num p) (h_state_limit p) state_ceil.
+Definition expected_gas_limit (e : env) (p : header) : Z := calc_gas_limit (num64 p) (h_gas_limit p) (e_gas_ceil e).
+Definition expected_state_limit (p : header) : Z := calc_state_limit (num64 p) (h_state_limit p) state_ceil.
 Definition expected_base_fee (e : env) (p : header) : Z :=
-  calc_base_fee (h_genesis p) (match e_gp e with GpGenesis => true | _ => false end) (e_er_pt e) (h_diff p) (h_num p).
+  calc_base_fee (h_genesis p) (match e_gp e with GpGenesis => true | _ => false end) (e_er_pt e) (h_diff p) (num64 p).
 Definition expected_pt_hash_of (co : co_result) (p : header) : Z :=
   if is_prime_of co then h_hash p else if h_genesis p then h_hash p else h_pt_hash p.
 Definition expected_pt_hash (p : header) : Z := expected_pt_hash_of (calc_order p) p.
@@ -387,6 +400,8 @@ Definition rule_state (p c : header) : bool :=
 Definition rule_base_fee (e : env) (p c : header) : bool := expected_base_fee e p =? h_base_fee c.
 Definition rule_pt (p c : header) : bool :=
   (expected_pt_hash p =? h_pt_hash c) && (expected_pt_num p =? h_pt_num c).
+(* the number rule on unbounded integers: header.Number(ctx) - parentNumber == 1 with big.Int arithmetic; a number
+   congruent to parent+1 modulo 2^64 (or any other width) is NOT parent+1 *)
 Definition rule_number (p c : header) : bool := h_num c =? expected_number p.
 
 (* verifyHeader(header = c, parent = p, uncle = false, unixNow) in a zone node, restricted to the rules above
@@ -430,7 +445,7 @@ Definition calc_order_cached (c : cache) (h : header) : cache * co_result :=
   | Some (e, o) => (c, CoOk e o)
   | None =>
       match calc_order h with
-      | CoOk e o => if h_num h =? 0 then (c, CoOk e o) else (cache_add c (hkey h) e o, CoOk e o)
+      | CoOk e o => if num64 h =? 0 then (c, CoOk e o) else (cache_add c (hkey h) e o, CoOk e o)
       | r => (c, r)
       end
   end.
@@ -457,6 +472,76 @@ Definition cache_state (c : cache) (ops : list cache_op) : cache :=
   fold_left (fun st o => fst (cache_step st o)) ops c.
 
 (* ------------------------------------------------------------------------------------------ *)
+(** * 8b. histories of CalcOrder / TotalLogEntropy / DeltaLogEntropy / UncledDeltaLogEntropy calls
+
+   The only state these functions share is the CalcOrder memo: TotalLogEntropy, DeltaLogEntropy and
+   UncledDeltaLogEntropy call hc.CalcOrder(header) (through the memo) and then ADD to the returned entropy.  In the Go
+   code the returned *big.Int IS the memoised object, so the sums must be formed in fresh integers
+   (new(big.Int).Add(...)); the model expresses that by value semantics: a call never changes a stored entry.  The
+   harness checks this on the real code (monitors hist:.. and alias:..), the correspondence check compares every
+   result of a history with [hist_run]. *)
+Inductive hist_fn := FOrder | FTotal | FDelta | FUDelta.
+Inductive hist_res :=
+| ROrder (r : co_result)
+| RZ (z : Z)
+| RPanic.                   (* CalcOrder panicked inside Total/Delta/UncledDelta *)
+
+Definition hist_fn_sum (f : hist_fn) : bool := match f with FOrder => false | _ => true end.
+
+Definition hist_project (ctx : Z) (f : hist_fn) (h : header) (co : co_result) : hist_res :=
+  match f with
+  | FOrder => ROrder co
+  | _ =>
+    match co with
+    | CoPanic => RPanic
+    | _ => RZ (match f with
+               | FTotal => total_entropy_of co ctx h
+               | FDelta => delta_entropy_of co ctx h
+               | _ => uncled_delta_entropy_of co h
+               end)
+    end
+  end.
+
+(* the function of the header alone (no memo) *)
+Definition hist_pure (ctx : Z) (f : hist_fn) (h : header) : hist_res :=
+  if hist_fn_sum f && h_genesis h then RZ 0 else hist_project ctx f h (calc_order h).
+
+Inductive hist_op :=
+| HCall (f : hist_fn) (h : header)
+| HEvict (k : Z)
+| HPurge.
+
+Definition hist_step (ctx : Z) (c : cache) (o : hist_op) : cache * option hist_res :=
+  match o with
+  | HCall f h =>
+      (* IsGenesisHash(header.Hash()) is tested BEFORE CalcOrder in the three sums: memo untouched *)
+      if hist_fn_sum f && h_genesis h then (c, Some (RZ 0)) else
+      let '(c', r) := calc_order_cached c h in (c', Some (hist_project ctx f h r))
+  | HEvict k => (del [Z.to_N k] c, None)
+  | HPurge => ([], None)
+  end.
+
+Fixpoint hist_run (ctx : Z) (c : cache) (ops : list hist_op) : list (option hist_res) :=
+  match ops with
+  | [] => []
+  | o :: ops' => let '(c', r) := hist_step ctx c o in r :: hist_run ctx c' ops'
+  end.
+
+Definition hist_uncached (ctx : Z) (o : hist_op) : option hist_res :=
+  match o with HCall f h => Some (hist_pure ctx f h) | _ => None end.
+
+(* compact encoding used by the correspondence cases: (code, index into the pool); codes 0..3 = the four functions,
+   4 = eviction of pool[index], 5 = purge *)
+Definition zero_header : header := mkH 0 false 0 0 0 0 0 0 0 0 0 0 0 0 0 0 0 0 0 0 0 0 0 0.
+Definition hist_decode (pool : list header) (p : Z * Z) : hist_op :=
+  let h := nth (Z.to_nat (snd p)) pool zero_header in
+  if fst p =? 0 then HCall FOrder h else
+  if fst p =? 1 then HCall FTotal h else
+  if fst p =? 2 then HCall FDelta h else
+  if fst p =? 3 then HCall FUDelta h else
+  if fst p =? 4 then HEvict (h_hash h) else HPurge.
+
+(* ------------------------------------------------------------------------------------------ *)
 (** * 9. correspondence cases                                                                  *)
 
 Definition co_eqb (a b : co_result) : bool :=
@@ -476,6 +561,20 @@ Definition oco_eqb (a b : option co_result) : bool :=
   match a, b with
   | Some x, Some y => co_eqb x y
   | None, None => true
+  | _, _ => false
+  end.
+Definition hres_eqb (a b : hist_res) : bool :=
+  match a, b with
+  | ROrder x, ROrder y => co_eqb x y
+  | RZ x, RZ y => x =? y
+  | RPanic, RPanic => true
+  | _, _ => false
+  end.
+Fixpoint ohres_eqb (a b : list (option hist_res)) : bool :=
+  match a, b with
+  | [], [] => true
+  | Some x :: a', Some y :: b' => hres_eqb x y && ohres_eqb a' b'
+  | None :: a', None :: b' => ohres_eqb a' b'
   | _, _ => false
   end.
 Fixpoint ocos_eqb (a b : list (option co_result)) : bool :=
@@ -502,7 +601,9 @@ Inductive case_body :=
 | CWsPost (n_uncles obs : Z)                          (* hc.WorkShareLogEntropy after the fork *)
 | CExpansion (e : env) (p : header) (obs : option Z)  (* hc.ComputeExpansionNumber *)
 | CVerify (e : env) (p c : header) (obs : bool)       (* hc.verifyHeader verdict (true = accepted) *)
-| CCache (ops : list cache_op) (obs : list (option co_result)).   (* history of CalcOrder calls / evictions *)
+| CCache (ops : list cache_op) (obs : list (option co_result))    (* history of CalcOrder calls / evictions *)
+| CHist (ctx : Z) (pool : list header) (ops : list (Z * Z)) (obs : list (option hist_res)).
+                                                      (* history of CalcOrder / Total / Delta / UncledDelta calls *)
 
 Definition case := (N * case_body)%type.
 
@@ -527,6 +628,7 @@ Definition body_ok (b : case_body) : bool :=
   | CExpansion e p obs => oz_eqb (expected_expansion e p) obs
   | CVerify e p c obs => Bool.eqb (valid_child_fast e p c) obs
   | CCache ops obs => ocos_eqb (cache_run [] ops) obs
+  | CHist ctx pool ops obs => ohres_eqb (hist_run ctx [] (map (hist_decode pool) ops)) obs
   end.
 
 Definition case_ok (c : case) : bool := body_ok (snd c).
